@@ -1,3 +1,4 @@
+import XonshVerif.Model.Py
 /-
 C20 — the job table of xonsh/procs/jobs.py: a dict `num ↦ job` and an MRU deque `tasks`,
 one pair per owner (the main thread, each alias thread).  Hand-written, executable, import-free.
@@ -5,6 +6,7 @@ Every definition follows the Python function named in its doc-string statement b
 `proc.poll()` is the scripted field `alive`, signals/`pipeline.resume` are outside the model.
 -/
 namespace Jobs
+open Py (filter_length_lt)
 
 structure Job where
   bg : Bool
@@ -30,28 +32,6 @@ def isDead (t : Table) (tid : Nat) : Bool :=
 def clearDead (t : Table) : Table :=
   { tasks := t.tasks.filter (fun tid => !isDead t tid)
     jobs := t.jobs.filter (fun p => !(t.tasks.contains p.1 && isDead t p.1)) }
-
-/-- helper for termination of the `while i in get_jobs(): i += 1` loop -/
-theorem filter_length_lt {α} (p q : α → Bool) (l : List α) (hpq : ∀ x, p x = true → q x = true)
-    (hex : ∃ x ∈ l, q x = true ∧ p x = false) : (l.filter p).length < (l.filter q).length := by
-  induction l with
-  | nil => obtain ⟨x, hx, _⟩ := hex; cases hx
-  | cons a l ih =>
-    have hle : ∀ l : List α, (l.filter p).length ≤ (l.filter q).length := by
-      intro l
-      induction l with
-      | nil => simp
-      | cons b l ihl =>
-        simp only [List.filter_cons]
-        cases hp : p b <;> cases hq : q b <;> simp <;> try omega
-        have := hpq b hp; simp [hq] at this
-    obtain ⟨x, hx, hqx, hpx⟩ := hex
-    simp only [List.filter_cons]
-    rcases List.mem_cons.mp hx with rfl | hx'
-    · simp [hqx, hpx]; have := hle l; omega
-    · have := ih ⟨x, hx', hqx, hpx⟩
-      cases hp : p a <;> cases hq : q a <;> simp <;> try omega
-      have := hpq a hp; simp [hq] at this
 
 /-- `get_next_job_number` (after its `_clear_dead_jobs()`): `i = start; while i in keys: i += 1` -/
 def nextFrom (keys : List Nat) (i : Nat) : Nat :=
